@@ -1,0 +1,27 @@
+//go:build verif
+
+// Verification hook for property C09 (add-only, compiled only with -tags verif): the token
+// list of a compiled macro.
+
+package macro
+
+// VerifC09Token is one compiled macro token: literal text (Variable == "UNKNOWN") or a
+// variable reference with its lower-cased key.
+type VerifC09Token struct {
+	Text     string
+	Variable string
+	Key      string
+}
+
+// VerifC09Tokens returns the tokens of a macro built by NewMacro (nil for foreign implementations).
+func VerifC09Tokens(m Macro) []VerifC09Token {
+	mm, ok := m.(*macro)
+	if !ok || mm == nil {
+		return nil
+	}
+	res := make([]VerifC09Token, 0, len(mm.tokens))
+	for _, t := range mm.tokens {
+		res = append(res, VerifC09Token{Text: t.text, Variable: t.variable.Name(), Key: t.key})
+	}
+	return res
+}
